@@ -17,6 +17,9 @@ GRAPH_CLASSES = ("Subgraph", "KNNSubgraph")
 def inline_private_model_helpers(fi: FunctionInfo) -> bool:
     """Private helpers of the model classes are inlined so that an extract-method refactor
     does not lose the anchor; public entry points and graph/heap methods are summarised."""
+    if fi.cls in GRAPH_CLASSES and not fi.name.startswith("__"):
+        from .ir import api_signature
+        return api_signature(fi) is None  # an undocumented helper of the graph classes (see Walker.call)
     if not fi.name.startswith("_") or fi.name.startswith("__"):
         return False
     return fi.cls in MODEL_CLASSES or (fi.cls is None and fi.module.startswith("opfython.models"))
@@ -36,8 +39,11 @@ def graph_walk(repo: Repo, cls: str, method: str) -> Walker:
     key = ("graph_walk", cls, method)
     if key not in repo.memo:
         fi = repo.need_method(cls, method)
+        from .ir import api_signature
         repo.memo[key] = Walker(repo, fi, self_class=cls,
-                                inline=lambda f: f.name.startswith("_") and not f.name.startswith("__") and (
+                                inline=lambda f: (f.cls in GRAPH_CLASSES and not f.name.startswith("__")
+                                                  and api_signature(f) is None) or
+                                f.name.startswith("_") and not f.name.startswith("__") and (
                                     f.cls in GRAPH_CLASSES or (f.cls is None and f.module.startswith(("opfython.subgraphs", "opfython.core")))))
     return repo.memo[key]
 
